@@ -12,6 +12,7 @@ from x690 import decode
 from x690.types import Integer, OctetString, Sequence, X690Type
 
 from puresnmp.pdu import PDU
+from puresnmp.util import reject_indefinite_length
 
 if sys.stdout is not None and sys.stdout.isatty():
     # Add some colour for TTYs
@@ -155,6 +156,7 @@ class ScopedPDU:
         >>> pdu == result
         True
         """
+        reject_indefinite_length(data[slc])
         sequence, _ = decode(
             data,
             start_index=slc.start or 0,
@@ -314,6 +316,7 @@ class Message:
         True
         """
 
+        reject_indefinite_length(data)
         message, _ = decode(data, enforce_type=Sequence)
         cls = (
             EncryptedMessage
